@@ -181,7 +181,8 @@ class StmtMixin:
             return then_fn(s)
         if z3.is_false(c):
             return else_fn(s)
-        yes, no = self.feasible(s, c), self.feasible(s, z3.Not(c))
+        yes = self.feasible(s, c)
+        no = self.feasible(s, z3.Not(c)) if yes else True
         if yes and not no:
             s.assume(c)
             return then_fn(s)
